@@ -14,7 +14,7 @@ from vf.zygote import Client
 
 STEPS = ["call", "call", "call", "edit_efth", "edit_dir", "edit_freq", "edit_dir_via_coords", "edit_freq_via_coords", "edit_values_inplace", "partition_other", "partition_transposed",
          "partition_same_size", "ptm12_same_size_other_grid", "ptm12_same_size_other_grid", "fit", "unknown_stat", "crsd_other", "reader", "attr_lookup", "call_on_copy", "dataset_accessor_touch", "reconstruct_other",
-         "partition_same_shape_other_levels", "partition_same_shape_other_levels", "write", "write"]
+         "partition_same_shape_other_levels", "partition_same_shape_other_levels", "write", "write", "write_other", "write_other"]
 
 
 PTM_WIND = (14.0, 200.0, 30.0)      # fixed wind speed / direction / depth shared by history and observed ptm1/ptm2
@@ -61,6 +61,10 @@ def run(ctx):
         for i, rng in ctx.cases("memo", ctx.n(260, 6000)):
             edit = str(rng.choice([s_ for s_ in STEPS if s_.startswith("edit_")]))
             one(ctx, rng, xr, wavespectra, attrs, cl, samples, forced=["same_as_observed", edit])
+        # writers after exports of other datasets with other layouts (templates / values carried from one export to the next)
+        for i, rng in ctx.cases("exports", ctx.n(200, 5000)):
+            one(ctx, rng, xr, wavespectra, attrs, cl, samples, forced=["write_other"] * int(rng.integers(1, 3)),
+                obs_names=["to_ww3", "to_ww3", "to_netcdf", "to_swan", "to_json", "to_octopus"])
     finally:
         cl.close()
 
@@ -69,23 +73,29 @@ def attrs_fingerprint(attrs):
     return (len(attrs.ATTRS), tuple(sorted(k for k in attrs.ATTRS if isinstance(attrs.ATTRS.get(k), dict) and len(attrs.ATTRS.get(k)) == 0)))
 
 
-def one(ctx, rng, xr, wavespectra, attrs, cl, samples, forced=None):
+def one(ctx, rng, xr, wavespectra, attrs, cl, samples, forced=None, obs_names=None):
     rec = ctx.rec
     nf = int(rng.choice([4, 6, 9]))
     nd = int(rng.choice([4, 8, 12]))
     f, fm = gen.freq_grid(rng, nf=nf)
     th, dd, dmeta = gen.dir_grid(rng, nd=nd, full=True, exact=True)
     lnames, lsizes = gen.lead_dims(rng, nlead=int(rng.choice([0, 1, 1, 2])), maxsize=3)
+    if obs_names is not None:
+        # the writers want a complete station dataset: records, sites and their positions
+        lnames, lsizes = ["time", "site"], [int(rng.choice([1, 1, 2, 5])), int(rng.integers(1, 3))]
     A, _ = gen.stack_spectra(rng, f, th, lsizes, cls="multimodal")
     da = gen.make_da(A, f, th, lnames, lsizes)
-    use_ds = rng.random() < 0.5
+    use_ds = rng.random() < 0.5 or obs_names is not None
     obj = da.to_dataset(name="efth") if use_ds else da
+    if obs_names is not None:
+        obj["lon"] = (("site",), np.round(rng.uniform(0, 359, lsizes[1]), 4))
+        obj["lat"] = (("site",), np.round(rng.uniform(-60, 60, lsizes[1]), 4))
     nsteps = int(rng.integers(1, 9))
     trace = []
     a0 = attrs_fingerprint(attrs)
     # the observed operation (with its arguments) is fixed first, so that the history can contain the very same call
     # before later edits (results memoised per object / per argument tuple)
-    obs = mk_obs(rng, f, th)
+    obs = mk_obs(rng, f, th) if obs_names is None else {"name": str(rng.choice(obs_names)), "kw": {}}
     for s in range(nsteps if forced is None else len(forced)):
         step = str(rng.choice(STEPS + ["same_as_observed", "same_as_observed"])) if forced is None else forced[s]
         trace.append(step)
@@ -211,7 +221,7 @@ def _plain(v):
 
 def _attrs(x):
     if hasattr(x, "data_vars"):
-        return {k: dict(x[k].attrs) for k in x.data_vars}
+        return {"(dataset)": dict(x.attrs), **{k: dict(x[k].attrs) for k in x.data_vars}}
     return (x.name, dict(x.attrs))
 
 
@@ -282,7 +292,43 @@ def do_step(step, rng, xr, wavespectra, attrs, obj, f, th, lnames, lsizes, sampl
         ds_ = obj if is_ds else obj.to_dataset(name="efth")
         d_ = tempfile.mkdtemp(prefix="vf-c18-")
         try:
-            getattr(ds_.spec, str(rng.choice(["to_swan", "to_octopus", "to_json"])))(os.path.join(d_, "hist_out"))
+            w_ = str(rng.choice(["to_swan", "to_octopus", "to_json", "to_ww3", "to_netcdf"]))
+            if w_ == "to_netcdf":
+                ds_.spec.to_netcdf(os.path.join(d_, "hist_out.nc"), ncformat="NETCDF3_64BIT", compress=False, packed=bool(rng.random() < 0.5))
+            else:
+                getattr(ds_.spec, w_)(os.path.join(d_, "hist_out"))
+        finally:
+            shutil.rmtree(d_, ignore_errors=True)
+    elif step == "write_other":
+        # an export of ANOTHER dataset with another layout (one record vs several, stations vs a grid, other positions):
+        # writers that fill templates or remember what they derived from the previous dataset
+        import shutil
+        import tempfile
+        nt_ = int(rng.choice([1, 2, 6, 25]))
+        ff = np.linspace(0.05, 0.4, int(rng.integers(3, 9)))
+        tt = np.arange(0.0, 360.0, float(rng.choice([30.0, 45.0, 90.0])))
+        if rng.random() < 0.5:
+            ln_, ls_ = ["time", "site"], [nt_, int(rng.integers(1, 4))]
+        else:
+            ln_, ls_ = ["time", "lat", "lon"], [nt_, int(rng.integers(1, 4)), int(rng.integers(1, 4))]
+        A_, _ = gen.stack_spectra(rng, ff, tt, ls_, cls="multimodal")
+        od_ = gen.make_da(A_, ff, tt, ln_, ls_).to_dataset(name="efth")
+        od_ = od_.assign_coords(time=np.datetime64("2001-03-04T00:00:00") + np.arange(nt_) * np.timedelta64(int(rng.choice([1, 3, 12])), "h"))
+        if "site" in ln_:
+            od_["lon"] = (("site",), rng.uniform(0, 359, ls_[1]))
+            od_["lat"] = (("site",), rng.uniform(-60, 60, ls_[1]))
+        else:
+            od_ = od_.assign_coords(lat=np.sort(rng.uniform(-60, 60, ls_[1])), lon=np.sort(rng.uniform(0, 359, ls_[2])))
+        d_ = tempfile.mkdtemp(prefix="vf-c18-")
+        try:
+            w_ = str(rng.choice(["to_swan", "to_json", "to_ww3", "to_ww3", "to_netcdf"]))
+            try:
+                if w_ == "to_netcdf":
+                    od_.spec.to_netcdf(os.path.join(d_, "other.nc"), ncformat="NETCDF3_64BIT", compress=False, packed=bool(rng.random() < 0.5))
+                else:
+                    getattr(od_.spec, w_)(os.path.join(d_, "other_out"))
+            except Exception:
+                pass            # a writer that refuses this layout is fine; what matters is the observed call afterwards
         finally:
             shutil.rmtree(d_, ignore_errors=True)
     elif step == "ptm12_same_size_other_grid":
